@@ -1,20 +1,26 @@
 /-
   Property oracles for command-level scenarios, evaluated on the IMPLEMENTATION's
   observations only (pre-state of step i = the implementation's observation after step
-  i-1, or the scenario's initial state).
+  i-1, or the scenario's initial state), against the specifications in Lc/Spec/World.
 -/
 import Lc.Driver.Util
 import Lc.Driver.Scenario
+import Lc.Spec.World
 
 namespace Lc.Driver.Oracle
-open Lean Lc Lc.Driver Lc.Driver.Scenario Lc.Layers
+open Lean Lc Lc.Driver Lc.Driver.Scenario Lc.Layers Lc.Spec.World
 
 structure StepView where
-  step : Json          -- the step description (cmd, args, switches)
-  preTree : Json
-  preTable : Json
-  post : Json          -- implementation observation after the step
-  modelNoFault : Json  -- model's observation of the same step without fault/crash (from impl pre-state when available)
+  cfg : Config
+  step : Json
+  users : List (Bytes × List User)
+  pre : Inst
+  preTreeJ : Json
+  preTableJ : Json
+  post : Inst
+  postJ : Json                -- implementation observation after the step
+  prevStep : Option Json      -- previous step description
+  prevCls : String            -- previous step's implementation class
 
 structure Verdict where
   holds : Bool := true
@@ -24,28 +30,500 @@ structure Verdict where
 
 def bad (why : String) : Verdict := { holds := false, why := why }
 def known (key why : String) : Verdict := { holds := false, finding := some key, why := why }
+def fine (tags : List String := []) : Verdict := { tags := tags }
 
 def cmdOf (s : Json) : String := getStr s "cmd"
+def argOf (s : Json) (i : Nat) : Bytes := (getBs s "args").getD i []
+def clsOf (v : StepView) : String := getStr v.postJ "cls"
+def plain (v : StepView) : Bool :=
+  !getBool v.step "pretend" && (optNat v.step "fault").isNone && (optNat v.step "crash").isNone
+def showB (b : Bytes) : String := toStringLossy b
 
-/-- C15: a pretend step changes neither tree nor table and issues no syscall -/
+structure Sys where
+  kind : String
+  src : Bytes := []
+  tgt : Bytes := []
+  fstype : Bytes := []
+  flags : Nat := 0
+  data : Bytes := []
+
+def sysOf (v : StepView) : List Sys :=
+  (getArr v.postJ "sys").filterMap fun e => match e with
+    | .arr a =>
+      match strAt a 0 with
+      | "mount" => some { kind := "mount", src := hexAt a 1, tgt := hexAt a 2, fstype := hexAt a 3,
+                          flags := natAt a 4, data := hexAt a 5 }
+      | "umount" => some { kind := "umount", tgt := hexAt a 1, flags := natAt a 2 }
+      | _ => none
+    | _ => none
+
+/-- layers subtree of the canonical tree JSON -/
+def subtreeJ (tree : Json) (dir : Bytes) : List Json :=
+  (match tree with | .arr a => a.toList | _ => []).filter fun e => match e with
+    | .arr a => atOrBelow dir (hexAt a 0)
+    | _ => false
+
+/-! ### C15 -/
+
 def c15 (v : StepView) : Verdict :=
-  if !getBool v.step "pretend" then { tags := ["not-pretend"] } else
-  let sys := getArr v.post "sys"
-  if !sys.isEmpty then bad "syscall issued under -p"
-  else if getObj v.post "tree" != v.preTree then bad "file system changed under -p"
-  else if getObj v.post "table" != v.preTable then bad "mount table changed under -p"
-  else { tags := ["pretend:" ++ cmdOf v.step ++ ":" ++ getStr v.post "cls"] }
+  if !getBool v.step "pretend" then fine ["not-pretend"] else
+  if !(getArr v.postJ "sys").isEmpty then bad "syscall issued under -p"
+  else if getObj v.postJ "tree" != v.preTreeJ then bad "file system changed under -p"
+  else if getObj v.postJ "table" != v.preTableJ then bad "mount table changed under -p"
+  else fine ["pretend:" ++ cmdOf v.step ++ ":" ++ clsOf v]
 
-/-- C10: if the k-th mutating operation was reached (and failed) the command must not
-    report success -/
+/-! ### C10 -/
+
 def c10 (v : StepView) : Verdict :=
   match optNat v.step "fault" with
-  | none => { tags := ["no-fault"] }
+  | none => fine ["no-fault"]
   | some k =>
-    let n := getNat v.post "nops"
-    if n ≥ k then
-      if getStr v.post "cls" == "ok" then bad s!"operation {k} failed but the command reported success"
-      else { tags := ["fault-fired:" ++ cmdOf v.step] }
-    else { tags := ["fault-not-reached"] }
+    if getNat v.postJ "nops" ≥ k then
+      if clsOf v == "ok" then bad s!"operation {k} failed but the command reported success"
+      else fine ["fault-fired:" ++ cmdOf v.step]
+    else fine ["fault-not-reached"]
+
+/-! ### C02 -/
+
+def legalNonEmpty (n : Bytes) : Bool := !n.isEmpty && isLegalLayerName n
+
+/-- must the structural command be rejected, by the property's own list of reasons? -/
+def mustReject (v : StepView) : Option String :=
+  let ls := diskLayers v.pre
+  let has := fun n => (findD ls n).isSome
+  let a0 := argOf v.step 0
+  let a1 := argOf v.step 1
+  match cmdOf v.step with
+  | "add" =>
+    if a0.isEmpty then some "empty name" else if !isLegalLayerName a0 then some "illegal name"
+    else if has a0 then some "duplicate name"
+    else if !a1.isEmpty && !isLegalLayerName a1 then some "illegal parent name"
+    else if !a1.isEmpty && !has a1 then some "missing parent" else none
+  | "rename" =>
+    if !has a0 then some "no such layer" else if a1.isEmpty then some "empty name"
+    else if !isLegalLayerName a1 then some "illegal name" else if has a1 then some "duplicate name" else none
+  | "rebase" =>
+    if !has a0 then some "no such layer"
+    else if !a1.isEmpty && !has a1 then some "missing parent"
+    else if a1 == a0 then some "own parent"
+    else if !a1.isEmpty && isAncestor ls a0 a1 then some "onto descendant" else none
+  | "remove" =>
+    if !has a0 then some "no such layer"
+    else if !(childrenOf ls a0).isEmpty then some "has children" else none
+  | _ => none
+
+def isStructural (c : String) : Bool :=
+  c == "add" || c == "rename" || c == "rebase" || c == "remove" || c == "mkdirs" || c == "init"
+
+def layerView (ls : List DLayer) : List (Bytes × Bytes × List Layerfile.NeededMount × List Layerfile.NeededMount) :=
+  ls.map fun l => (l.name, l.file.base, l.file.mounts, l.file.exports)
+
+def c02 (v : StepView) : Verdict :=
+  let c := cmdOf v.step
+  let cls := clsOf v
+  if cls == "panic" then bad "command crashed" else
+  if cls == "timeout" then bad "command did not return" else
+  let preLs := diskLayers v.pre
+  let postLs := diskLayers v.post
+  -- interrupted commands (injected I/O fault or crash) are outside C02's quantifier
+  let interrupted := (optNat v.step "crash").isSome || (optNat v.step "fault").isSome
+  if !interrupted && forestWF preLs && !forestWF postLs then bad ("forest broken after " ++ c) else
+  if !interrupted && forestWF preLs && getStr (getObj v.postJ "layers") "cls" != "ok" then
+    bad "installation can no longer be listed" else
+  if !plain v || !isStructural c then fine ["c02:wf-only"] else
+  match mustReject v with
+  | some why =>
+    if cls == "ok" then bad ("accepted although: " ++ why)
+    else if subtreeJ (getObj v.postJ "tree") v.cfg.layerdirs != subtreeJ v.preTreeJ v.cfg.layerdirs then
+      bad ("rejected (" ++ why ++ ") but the layer tree changed")
+    else fine ["c02:rejected:" ++ why]
+  | none =>
+    if cls != "ok" then fine ["c02:" ++ c ++ ":failed-other"] else
+    let a0 := argOf v.step 0
+    let a1 := argOf v.step 1
+    if c == "rebase" then
+      let exp := (layerView preLs).map fun (n, b, m, e) => if n == a0 then (n, a1, m, e) else (n, b, m, e)
+      if (layerView postLs).all (fun x => exp.contains x) && exp.all (fun x => (layerView postLs).contains x)
+      then fine ["c02:rebase-ok"] else bad "rebase changed more than the layer's parent"
+    else if c == "rename" then
+      let exp := (layerView preLs).map fun (n, b, m, e) =>
+        ((if n == a0 then a1 else n), (if b == a0 then a1 else b), m, e)
+      let kept := (subtreeJ v.preTreeJ (layerDir v.pre a0)).all fun e => match e with
+        | .arr a =>
+          let p := hexAt a 0
+          let rel := p.drop (layerDir v.pre a0).length
+          let np := layerDir v.pre a1 ++ rel
+          if pathBase p == b!"layerconfig" then Fs.lexists v.post.fs np
+          else match Fs.get v.pre.fs p, Fs.get v.post.fs np with
+            | some x, some y => x == y
+            | _, _ => false
+        | _ => true
+      if !((layerView postLs).all (fun x => exp.contains x) && exp.all (fun x => (layerView postLs).contains x)) then
+        bad "rename did not retarget exactly the children"
+      else if !kept then bad "rename lost content of the layer directory"
+      else fine ["c02:rename-ok"]
+    else fine ["c02:" ++ c ++ ":ok"]
+
+/-! ### C04 -/
+
+def c04 (v : StepView) : Verdict :=
+  if !plain v then fine [] else
+  let c := cmdOf v.step
+  let ls := diskLayers v.pre
+  let a0 := argOf v.step 0
+  let unchanged := getObj v.postJ "tree" == v.preTreeJ && getObj v.postJ "table" == v.preTableJ
+  let exists0 := (findD ls a0).isSome
+  if c == "remove" || c == "rename" || c == "rebase" then
+    if !exists0 then fine [] else
+    let kids := if c == "remove" then [] else childrenOf ls a0
+    let prot := protectedL v.pre v.users a0 || kids.any (protectedL v.pre v.users)
+    if prot then
+      if clsOf v == "ok" then bad (c ++ " of a protected layer succeeded")
+      else if !unchanged then bad (c ++ " of a protected layer was refused but changed something")
+      else fine ["c04:refused:" ++ c]
+    else fine ["c04:free:" ++ c]
+  else if c == "umount" then
+    let all := getBool v.step "all"
+    if !a0.isEmpty && all then fine ["c04:usage"] else
+    let targets := if !a0.isEmpty then (if exists0 then [a0] else []) else if all then ls.map (·.name) else []
+    let sys := sysOf v
+    let touched := fun n => sys.any fun s => s.kind == "umount" && atOrBelow (buildDir v.pre n) s.tgt
+    let isBlocked := fun n => if a0.isEmpty then blockedAll v.pre ls v.users (ls.length + 1) n
+                              else unmountBlocked v.pre v.users n
+    let blocked := targets.filter isBlocked
+    let idleMounted := targets.filter fun n => !isBlocked n && mountedAtOrBelow v.pre n
+    if blocked.any touched then bad "umount touched a layer that is in use or overlain"
+    else if !blocked.isEmpty && clsOf v == "ok" then bad "umount reported success although a layer was blocked"
+    else if (a0.isEmpty || blocked.isEmpty) && idleMounted.any (fun n => !touched n) && (targets.all fun n =>
+        ((findD ls n).map (fun l => l.file.nmsgs == 0)).getD true) then
+      bad "umount refused a layer although nothing works in its build, upper or work directory"
+    else fine [(if blocked.isEmpty then "c04:umount-free" else "c04:umount-blocked")]
+  else fine []
+
+/-! ### C09 -/
+
+def pristinePaths (i : Inst) (n : Bytes) (derived : Bool) : List Bytes :=
+  let d := layerDir i n
+  [d, pathJoin [d, b!"layerconfig"], buildDir i n] ++
+  (if derived then (Fs.ancestors (workDir i n) ++ [workDir i n] ++ Fs.ancestors (upperDir i n) ++ [upperDir i n]).filter (atOrBelow d)
+   else [pathJoin [buildDir i n, b!"root"], pathJoin [buildDir i n, b!"root", b!".bashrc"]])
+
+def c09 (v : StepView) : Verdict :=
+  if cmdOf v.step != "remove" || !plain v then fine [] else
+  let a0 := argOf v.step 0
+  let ls := diskLayers v.pre
+  match findD ls a0 with
+  | none => fine []
+  | some l =>
+    let d := layerDir v.pre a0
+    let rm := d ++ removedSuffix
+    let hadRemoved := Fs.lexists v.pre.fs rm
+    let sameRemoved := subtreeJ (getObj v.postJ "tree") rm == subtreeJ v.preTreeJ rm
+    if hadRemoved && !sameRemoved then bad "an existing ~removed directory was overwritten" else
+    if getBool v.step "files" || clsOf v != "ok" then fine ["c09:n/a"] else
+    let entries := v.pre.fs.filter fun e => atOrBelow d e.1
+    let pristine := entries.all fun e => (pristinePaths v.pre a0 (!l.file.base.isEmpty)).contains e.1
+    let survives := entries.all fun e =>
+      match e.2 with
+      | .dir => true
+      | node =>
+        let rel := e.1.drop d.length
+        Fs.get v.post.fs e.1 == some node || Fs.get v.post.fs (rm ++ rel) == some node
+    if survives then fine [(if pristine then "c09:pristine" else "c09:preserved")]
+    else if pristine then fine ["c09:pristine-deleted"]
+    else
+      -- recorded finding: deletion is decided by the probed state "not yet populated"
+      let st := (allStates v.pre ls v.users).find? (·.1 == a0)
+      if (st.map (·.2)) == some St.complete then
+        known "remove-deletes-unpopulated-layer-with-data" "remove without -files deleted user data of a layer in state 'not yet populated'"
+      else bad "remove without -files destroyed user data"
+
+/-! ### C03 -/
+
+/-- replay the implementation's syscalls on the kernel model from the pre-state table;
+    returns the index and error of the first failing one -/
+def replaySys (mnts : List Kernel.KMnt) (sys : List Sys) : Option (Nat × Sys × Kernel.KErr) × Kernel.KTable :=
+  let t0 : Kernel.KTable := { mnts := mnts, nextId := (mnts.foldl (fun acc x => max acc x.id) 99) + 1 }
+  let r := sys.foldl (fun (acc : Option (Nat × Sys × Kernel.KErr) × Kernel.KTable × Nat) s =>
+    match acc.1 with
+    | some _ => acc
+    | none =>
+      let res := if s.kind == "umount" then Kernel.kumount acc.2.1 s.tgt
+                 else Kernel.kmount acc.2.1 s.src s.tgt s.fstype s.flags s.data
+      match res with
+      | .ok t' => (none, t', acc.2.2 + 1)
+      | .error e => (some (acc.2.2, s, e), acc.2.1, acc.2.2 + 1)) (none, t0, 0)
+  (r.1, r.2.1)
+
+def c03 (v : StepView) : Verdict :=
+  if cmdOf v.step != "umount" || !plain v then fine [] else
+  let ls := diskLayers v.pre
+  let a0 := argOf v.step 0
+  let all := getBool v.step "all"
+  let sys := sysOf v
+  if !a0.isEmpty && all then
+    if clsOf v == "ok" || !sys.isEmpty then bad "umount with both a layer and -all did something" else fine ["c03:usage"]
+  else if a0.isEmpty && !all then
+    if clsOf v == "ok" then bad "umount with neither a layer nor -all reported success"
+    else if !sys.isEmpty then bad "umount with neither a layer nor -all unmounted something"
+    else fine ["c03:noargs"]
+  else
+  if sys.any (·.kind != "umount") then bad "umount issued a mount call" else
+  let scope := if !a0.isEmpty then [a0] else ls.map (·.name)
+  let owner := fun (t : Bytes) => scope.find? fun n => atOrBelow (buildDir v.pre n) t
+  if sys.any (fun s => (owner s.tgt).isNone) then bad "unmount outside the build root of the addressed layer(s)" else
+  -- each call must hit a current mountpoint with nothing mounted beneath it
+  match (replaySys v.pre.mnts sys).1 with
+  | some (_, s, e) =>
+    if e == .ebusy then bad ("unmount of " ++ showB s.tgt ++ " while something is still mounted beneath it")
+    else bad ("unmount of " ++ showB s.tgt ++ " which is not a mountpoint")
+  | none =>
+    -- derived layers before the layers they sit on
+    let idx := sys.map fun s => (owner s.tgt).getD []
+    let rec orderOk : List Bytes → Bool
+      | [] => true
+      | x :: rest => rest.all (fun y => !(isAncestor ls x y)) && orderOk rest
+    if !orderOk idx then bad "umount -all unmounted a layer before a layer derived from it" else
+    let blocked := scope.filter fun n => (findD ls n).isSome &&
+      (if a0.isEmpty then blockedAll v.pre ls v.users (ls.length + 1) n else unmountBlocked v.pre v.users n)
+    if clsOf v == "ok" then
+      let left := scope.filter fun n => (findD ls n).isSome && mountedAtOrBelow v.post n
+      if !left.isEmpty then bad ("umount succeeded but " ++ showB (left.headD []) ++ " still has mounts")
+      else fine ["c03:ok"]
+    else
+      -- failure: busy layers reported; idle ones must still have been unmounted (-all)
+      if all then
+        let idleLeft := scope.filter fun n =>
+          (findD ls n).isSome && !blocked.contains n && mountedAtOrBelow v.post n
+          && ((findD ls n).map (fun l => l.file.nmsgs == 0)).getD false
+        if !idleLeft.isEmpty && !blocked.isEmpty then bad "umount -all left an idle layer mounted"
+        else fine ["c03:all-busy"]
+      else fine ["c03:refused"]
+
+/-! ### C01 -/
+
+def chainOf (ls : List DLayer) (n : Bytes) : List Bytes := (ancestorsOf ls (ls.length + 1) n).reverse ++ [n]
+
+def isPropCall (s : Sys) : Bool := s.kind == "mount" && s.flags == Kernel.MS_SLAVE + Kernel.MS_REC && s.src.isEmpty
+
+/-- configuration of the chain is sane: per layer, import mountpoints pairwise distinct,
+    inside the build root, none equal to it, none below another import's mountpoint -/
+def configSane (i : Inst) (ls : List DLayer) (chain : List Bytes) : Bool :=
+  chain.all fun n => match findD ls n with
+    | none => false
+    | some l =>
+      let mps := l.file.mounts.map fun m => pathJoin [buildDir i n, m.mount]
+      mps.all (fun p => p != buildDir i n && atOrBelow (buildDir i n) p) &&
+      (mps.zipIdx.all fun (p, k) => (mps.zipIdx.all fun (q, j) => j == k || !(atOrBelow q p)))
+
+def c01 (v : StepView) : Verdict :=
+  let c := cmdOf v.step
+  if !(c == "mount" || c == "chroot") || !plain v then fine [] else
+  let ls := diskLayers v.pre
+  let a0 := argOf v.step 0
+  match findD ls a0 with
+  | none => fine []
+  | some _ =>
+    let chain := chainOf ls a0
+    let sys := sysOf v
+    let sane := configSane v.pre ls chain
+    let viol := fun (why : String) =>
+      if sane then bad why else known "mount-config-not-sane" (why ++ " (layerconfig with duplicate, nested or escaping mountpoints)")
+    if sys.any (·.kind != "mount") then bad "mount issued an unmount call" else
+    let owner := fun (t : Bytes) => chain.find? fun n => atOrBelow (buildDir v.pre n) t
+    if sys.any (fun s => (owner s.tgt).isNone) then viol "mount outside the build roots of the layer's chain" else
+    -- nothing stacked: replay, checking each structural mount's target first
+    let t0 : Kernel.KTable := { mnts := v.pre.mnts, nextId := (v.pre.mnts.foldl (fun acc x => max acc x.id) 99) + 1 }
+    let stacked := (sys.foldl (fun (acc : Bool × Kernel.KTable) s =>
+      if isPropCall s then acc else
+      let was := (Kernel.topmostAt acc.2.mnts s.tgt).isSome
+      match Kernel.kmount acc.2 s.src s.tgt s.fstype s.flags s.data with
+      | .ok t' => (acc.1 || was, t')
+      | .error _ => (acc.1 || was, acc.2)) (false, t0)).1
+    if stacked then viol "a mount was issued for a mountpoint that is already mounted" else
+    -- order: chain position non-decreasing; per layer overlay first; propagation call after /dev,/sys,/run
+    let pos := fun (n : Bytes) => (chain.idxOf n)
+    let seq := (sys.filter (!isPropCall ·)).map fun s => pos ((owner s.tgt).getD [])
+    let rec nondecr : List Nat → Bool
+      | a :: b :: rest => a ≤ b && nondecr (b :: rest)
+      | _ => true
+    if !nondecr seq then bad "mounts not issued ancestors-first" else
+    let ovlFirst := chain.all fun n =>
+      let mine := sys.filter fun s => !isPropCall s && owner s.tgt == some n
+      match mine.findIdx? (fun s => s.tgt == buildDir v.pre n) with
+      | some k => k == 0
+      | none => true
+    if !ovlFirst then viol "an import was mounted before the layer's overlay" else
+    let rec slaveOk : List Sys → Bool
+      | [] => true
+      | s :: rest =>
+        if !isPropCall s && (s.src == b!"/dev" || s.src == b!"/sys" || s.src == b!"/run") then
+          match rest with
+          | p :: rest' => isPropCall p && p.tgt == s.tgt && slaveOk rest'
+          | [] => clsOf v != "ok"
+        else if isPropCall s then false
+        else slaveOk rest
+    if !slaveOk sys then bad "recursive bind of /dev, /sys or /run not switched to recursive-slave propagation" else
+    -- every call is the overlay of a chain layer or one of its configured imports, with the right arguments
+    let okCall := fun (s : Sys) =>
+      if isPropCall s then true else
+      match owner s.tgt with
+      | none => false
+      | some n =>
+        match findD ls n with
+        | none => false
+        | some l =>
+          if s.tgt == buildDir v.pre n && !l.file.base.isEmpty &&
+             !(l.file.mounts.any fun m => pathJoin [buildDir v.pre n, m.mount] == s.tgt) then
+            s.fstype == b!"overlay" &&
+            s.data == b!"lowerdir=" ++ buildDir v.pre l.file.base ++ b!",upperdir=" ++ upperDir v.pre n
+                      ++ b!",workdir=" ++ workDir v.pre n
+          else l.file.mounts.any fun m =>
+            pathJoin [buildDir v.pre n, m.mount] == s.tgt && m.fstype == s.fstype &&
+            resolveSource v.pre ls n m.source == some s.src &&
+            s.flags == (if m.fstype == b!"bind" then Kernel.MS_BIND
+                        else if m.fstype == b!"rbind" then Kernel.MS_BIND + Kernel.MS_REC
+                        else if m.fstype == b!"remount" then Kernel.MS_REMOUNT else 0)
+    if !sys.all okCall then viol "a mount call does not correspond to the overlay or a configured import of a chain layer" else
+    if clsOf v != "ok" then fine ["c01:failed"] else
+    -- post-state: every chain layer has exactly its configured mounts
+    let postLs := diskLayers v.post
+    let complete := chain.all fun n =>
+      match findD postLs n with
+      | none => false
+      | some l =>
+        (l.file.base.isEmpty || match topAt v.post.mnts (buildDir v.post n) with
+          | some m => m.fstype == b!"overlay" && m.lower == buildDir v.post l.file.base &&
+                      m.upper == upperDir v.post n && m.work == workDir v.post n
+          | none => false) &&
+        l.file.mounts.all fun m => (topAt v.post.mnts (pathJoin [buildDir v.post n, m.mount])).isSome
+    if !complete then viol "mount succeeded but a chain layer lacks a configured mount" else
+    -- idempotence: repeating a successful mount performs no mount operation
+    let repeated := match v.prevStep with
+      | some p => (cmdOf p == "mount" || cmdOf p == "chroot") && argOf p 0 == a0 && v.prevCls == "ok"
+                  && !getBool p "pretend" && (optNat p "fault").isNone && (optNat p "crash").isNone
+      | none => false
+    if repeated && !sys.isEmpty then bad "repeating a successful mount issued mount operations"
+    else fine [(if sys.isEmpty then "c01:nothing-to-do" else "c01:mounted")]
+
+/-! ### C08 -/
+
+def c08 (v : StepView) : Verdict :=
+  if (optNat v.step "crash").isSome then fine [] else
+  let lj := getObj v.postJ "layers"
+  if getStr lj "cls" != "ok" then fine ["c08:unlistable"] else
+  let ls := diskLayers v.post
+  if !forestWF ls then fine ["c08:not-wf"] else
+  let spec := allStates v.post ls v.users
+  let impl := (getArr lj "layers").filterMap fun e => match e with
+    | .arr a => some (hexAt a 0, natAt a 2)
+    | _ => none
+  let diffs := impl.filter fun (n, s) => match spec.find? (·.1 == n) with
+    | some (_, st) => st.toNat != s
+    | none => true
+  match diffs with
+  | [] => fine (impl.map fun (_, s) => s!"c08:state{s}").eraseDups
+  | (n, s) :: _ =>
+    let st := (spec.find? (·.1 == n)).map (·.2.toNat) |>.getD 0
+    let l := findD ls n
+    -- recorded findings
+    let behindNonRoot := match l with
+      | some l => l.file.mounts.any fun m =>
+          match resolveSource v.post ls n m.source with
+          | some src => match Kernel.findContaining v.post.mnts src with
+            | some cm => cm.root != [47] && (m.fstype == b!"bind" || m.fstype == b!"rbind")
+            | none => false
+          | none => false
+      | none => false
+    if s == 1 && st != 1 && behindNonRoot then
+      known "mount-source-behind-nonroot-mount" "a correctly mounted import whose source lies below a bind mount / subvolume (mount root not /) is reported as error"
+    else if s == 5 && st == 6 then
+      known "derived-imports-without-overlay" "a derived layer with imports mounted but no overlay is reported mountable instead of partially mounted"
+    else bad s!"layer {showB n}: reported state {s}, documented classification gives {st}"
+
+/-! ### C16 -/
+
+def exportEntries (i : Inst) (n : Bytes) : List (Bytes × Bytes) :=
+  [ (pathJoin [i.cfg.exportdirs, i.cfg.exportBinPkg, n], pathJoin [layerDir i n, i.cfg.binPkg]),
+    (pathJoin [i.cfg.exportdirs, i.cfg.exportGenerated, n], pathJoin [layerDir i n, i.cfg.generated]) ]
+
+def c16 (v : StepView) : Verdict :=
+  if !plain v then fine [] else
+  let c := cmdOf v.step
+  let ls := diskLayers v.pre
+  let a0 := argOf v.step 0
+  -- an export entry that is not a symlink is never deleted or replaced
+  let exportsPre := v.pre.fs.filter fun e => atOrBelow v.cfg.exportdirs e.1 && e.1 != v.cfg.exportdirs
+  let nonLinkKept := exportsPre.all fun e => match e.2 with
+    | .symlink _ => true
+    | node => Fs.get v.post.fs e.1 == some node
+  if !nonLinkKept then bad "an export entry that is not a symlink was deleted or replaced" else
+  if (c == "mount" || c == "chroot") && clsOf v == "ok" then
+    match findD ls a0 with
+    | none => fine []
+    | some _ =>
+      let chain := chainOf ls a0
+      let postLs := diskLayers v.post
+      let problems := chain.filterMap fun n =>
+        let autos := exportEntries v.post n
+        let explicitE := match findD postLs n with
+          | some l => (match expandConfigExports v.cfg
+                { name := n, base := l.file.base, cmounts := l.file.mounts, cexports := l.file.exports,
+                  layerPath := layerDir v.post n } with
+              | .ok es => es.map fun e => (e.mount, e.source)
+              | .error _ => [])
+          | none => []
+        let wantAuto := autos.filter fun (_, src) => Fs.lexists v.post.fs src
+        let want := wantAuto ++ explicitE
+        -- an explicit directive and the automatic entry may name the same link: either target is right
+        let wrong := want.find? fun (lnk, _) =>
+          !(want.any fun (l2, s2) => l2 == lnk && Fs.get v.post.fs lnk == some (.symlink s2))
+        let extra := autos.find? fun (lnk, src) =>
+          !Fs.lexists v.post.fs src && !(explicitE.any (·.1 == lnk)) &&
+          (match Fs.get v.post.fs lnk with | some (.symlink _) => !Fs.lexists v.pre.fs lnk | _ => false)
+        match wrong, extra with
+        | some (lnk, _), _ => some (lnk, (Fs.lexists v.pre.fs lnk))
+        | none, some (lnk, _) => some (lnk, false)
+        | none, none => none
+      match problems with
+      | [] => fine ["c16:mount-links-ok"]
+      | (lnk, preexisting) :: _ =>
+        if preexisting then known "export-entry-foreign-or-stale" ("export entry " ++ showB lnk ++ " existed before with another target or type and was left as it was")
+        else bad ("after mount the export entry " ++ showB lnk ++ " is missing or points elsewhere")
+  else if (c == "rename" || c == "remove") && clsOf v == "ok" then
+    let left := (exportEntries v.post a0).filter fun (lnk, _) => Fs.lexists v.post.fs lnk
+    let others := exportsPre.all fun e =>
+      (exportEntries v.pre a0).any (·.1 == e.1) || Fs.get v.post.fs e.1 == some e.2
+    if !left.isEmpty && !(c == "rename" && argOf v.step 1 == a0) then
+      bad ("an export entry carrying the old layer name is left after " ++ c)
+    else if !others then bad ("export entries of other layers were touched by " ++ c)
+    else fine ["c16:" ++ c ++ "-links-ok"]
+  else fine []
+
+/-! ### C11 (crash part) -/
+
+def layerconfigs (tree : Json) : List (Bytes × Bytes) :=
+  (match tree with | Json.arr a => a.toList | _ => []).filterMap fun e => match e with
+    | Json.arr a => if pathBase (hexAt a 0) == b!"layerconfig" && strAt a 1 == "f" then some (hexAt a 0, hexAt a 2) else none
+    | _ => none
+
+/-- `expectPost`: the layerconfig contents the same step produces when it is not
+    interrupted (computed by the model from the implementation's own pre-state) -/
+def c11 (v : StepView) (expectPost : List (Bytes × Bytes)) : Verdict :=
+  match optNat v.step "crash" with
+  | none => fine []
+  | some _ =>
+    let pre := layerconfigs v.preTreeJ
+    let post := layerconfigs (getObj v.postJ "tree")
+    let allowed := pre.map (·.2) ++ expectPost.map (·.2)
+    match post.find? (fun (_, c) => !allowed.contains c) with
+    | some (p, _) => bad ("after a crash " ++ showB p ++ " is neither its previous nor its new complete version")
+    | none =>
+      -- no layer definition may be lost: every layer directory that had a layerconfig and still
+      -- exists (at its old or new place) has one
+      let lostDirs := pre.filter fun (p, _) =>
+        Fs.isDir v.post.fs (pathDir p) && !(post.any (·.1 == p))
+      if !lostDirs.isEmpty then bad "after a crash a layer directory has no layerconfig any more"
+      else fine [(if clsOf v == "crash" then "c11:crashed:" ++ cmdOf v.step else "c11:crash-not-reached")]
 
 end Lc.Driver.Oracle
